@@ -179,6 +179,18 @@ CHECKS = {
    note="bounded: prefixes of <= 4/5 characters exhaustively, random documents of <= ~40 events; positions of node starts are taken "
         "from saphyr-parser markers; one known finding (quoted scalar span runs to the end of the line); " + TRUST,
    technique="TLA+ model (Locations.tla) checked by TLC + TLC-generated texts replayed into the real crate + TLC trace validation of recorded spans and error locations"),
+ "C17": dict(
+   category="model_checking",
+   text="Snippet.tla states the contract of a rendered report over code points (vertical window of two lines either side, every "
+        "shown line a slice of its source line inside [col-radius, col+radius] with ellipsis marks, the caret under the reported "
+        "column after crop rebasing, no C0 / DEL / C1 anywhere) and transcribes crop_line_by_cols and the span rebasing; TLC "
+        "checks on a grid that the transcription satisfies the contract and emits each grid point as a document; the harness "
+        "renders real errors through every formatter, entry point, radius and the miette adapter, and the TLA+ trace validator "
+        "decides every report line by line.",
+   design_ref="DESIGN.md section 4 C17",
+   note="bounded: grid lines <= 6/9 characters (x1, x3), generated documents up to ~10 KiB; two known findings (lone CR line breaks, "
+        "context line left of the window shown uncropped); " + TRUST,
+   technique="TLA+ model (Snippet.tla) checked by TLC + TLC-generated grid cases replayed into the real renderer + TLC trace validation of rendered reports"),
  "C15": dict(
    category="model_checking",
    text="AnchorStore.tla's call-history part models the thread-local state (context stack, store, in-progress set) under nested "
